@@ -219,6 +219,12 @@ class Exporter:
                         ktypes = ",".join(str(o.type) for o in inner.operands) + "->" + ",".join(str(r.type) for r in inner.results)
                         break
                 sv = [sv[0], accn, kname, ktypes]
+                seg = op.properties.get("operandSegmentSizes")
+                if seg is not None:
+                    try:
+                        iv = [int(x) for x in seg.get_values()]
+                    except Exception:
+                        iv = []
         tag, w = ("", 0)
         if op.results:
             tag, w = type_tag(op.results[0].type)
